@@ -138,6 +138,7 @@ type FnCtx struct {
 	curDefs      *[]string
 	storeDefs    map[Term]storeDef
 	private      []privObj
+	hintSeen     map[string]bool // program points ("before <key> assert") met while translating
 	constComps   map[string]bool // components of package variables that never change after initialisation
 	frozenFV     map[*ssa.FreeVar]Term
 	pointSites   map[string]int
